@@ -739,7 +739,9 @@ Note2: that Reed-Solomon can correct up to 2*resilience_rate erasures (eg, null 
                         with open(outfilepath, 'wb') as outfile:
                             # TODO: optimize to copy over what we have already checked, so that we get directly to the first error that triggered the correction
                             # For each message block, check the message with hash and repair with ecc if necessary
+                            copied_upto = 0 # position in the input file of the end of the last block written to the output file
                             for i, e in enumerate(stream_entry_assemble(hasher, file, db, entry_p, max_block_size, header_size, resilience_rates)): # Extract and assemble each message block from the original file with its corresponding ecc and hash
+                                copied_upto = e["curpos"] + len(e["message"]) # every block we get here is written below, either repaired or as-is
                                 # If the message block has a different hash, it was corrupted (or the hash is corrupted, or both)
                                 if hasher.hash(e["message"]) == e["hash"] and (fast_check or ecc_manager_variable.check(e["message"], e["ecc"], k=e["ecc_params"]["message_size"])):
                                     outfile.write(e["message"])
@@ -777,6 +779,12 @@ Note2: that Reed-Solomon can correct up to 2*resilience_rate erasures (eg, null 
                                             ptee.write("Failure: Too many consecutive uncorrectable errors for %s. Most likely, the ecc track was misdetected (try to repair the entrymarkers and field delimiters). Skipping this track/file." % relfilepath)
                                             db.seek(entry_p["ecc_field_pos"][1]) # Optimization: move the reading cursor to the beginning of the next ecc entry, this will save some iterations in get_next_entry()
                                             break
+                            # The ecc track may end before the input file does (file grown since the ecc generation and --ignore_size, or ecc track cut short): copy the rest of the input file unchanged, so that the output always has the size of the input
+                            file.seek(copied_upto)
+                            buf = file.read(65535)
+                            while buf:
+                                outfile.write(buf)
+                                buf = file.read(65535)
                     # Copying the last access time and last modification time from the original file TODO: a more reliable way would be to use the db computed by rfigc.py, because if a software maliciously tampered the data, then the modification date may also have changed (but not if it's a silent error, in that case we're ok).
                     filestats = os.stat(filepath)
                     os.utime(outfilepath, (filestats.st_atime, filestats.st_mtime))
